@@ -5,6 +5,8 @@ Spec/Lists.lean.
 import GoderiveModel.S.Lists
 import GoderiveModel.Spec.Lists
 
+set_option linter.unusedSimpArgs false
+
 namespace Goderive
 namespace Lists
 
@@ -100,6 +102,829 @@ theorem contains_eq (eq : Val → Val → Res Bool) (e : Val → Val → Bool) (
     have ih' := ih (fun v hv => h v (by simp [hv]))
     simp only [contains, hx]
     cases hv : e x item <;> simp_all [Spec.containsBy]
+
+/-! ### filter: the in-place compaction loop -/
+
+theorem getElem_pre (pre : List Val) (x : Val) (r : List Val) (i : Nat) (hi : i = pre.length)
+    (h : i < (pre ++ x :: r).length) : (pre ++ x :: r)[i] = x := by
+  subst hi
+  rw [List.getElem_append_right (Nat.le_refl _)]
+  simp
+
+theorem set_pre (pre : List Val) (y x : Val) (r : List Val) (i : Nat) (hi : i = pre.length) :
+    (pre ++ y :: r).set i x = pre ++ x :: r := by
+  subst hi
+  simp [List.set_append_right]
+
+theorem filterLoop_spec {σ : Type} (p : Fn σ Bool) (rest : List Val) :
+    ∀ (kept junk : List Val) (s : σ),
+    filterLoop p (kept ++ junk ++ rest) (kept.length + junk.length) kept.length s =
+      .ok (kept ++ (Spec.filterM p rest s).1 ++ (junk ++ rest).drop (Spec.filterM p rest s).1.length,
+           kept.length + (Spec.filterM p rest s).1.length, (Spec.filterM p rest s).2) := by
+  induction rest with
+  | nil =>
+    intro kept junk s
+    rw [filterLoop]
+    simp [Spec.filterM]
+  | cons x r ih =>
+    intro kept junk s
+    rw [filterLoop]
+    have hlt : kept.length + junk.length < (kept ++ junk ++ x :: r).length := by simp
+    rw [dif_pos hlt, getElem_pre (kept ++ junk) x r _ (by simp)]
+    simp only [Spec.filterM]
+    rcases hp : p x s with ⟨b, s'⟩
+    cases b
+    · -- predicate false: x joins the junk
+      have := ih kept (junk ++ [x]) s'
+      simp only [List.append_assoc, List.length_append, List.length_cons, List.length_nil,
+        List.cons_append, List.nil_append, ← Nat.add_assoc] at this
+      simp only [List.append_assoc]
+      rw [this]
+      simp
+    · -- predicate true: x is written at position j
+      have hj : kept.length < (kept ++ junk ++ x :: r).length := by simp; omega
+      simp only [if_pos hj]
+      cases junk with
+      | nil =>
+        have := ih (kept ++ [x]) [] s'
+        simp only [List.append_assoc, List.length_append, List.length_cons, List.length_nil,
+          List.cons_append, List.nil_append, List.append_nil, ← Nat.add_assoc] at this
+        simp [this]
+        omega
+      | cons y js =>
+        have hne : (kept.length + (y :: js).length != kept.length) = true := by simp
+        simp only [hne, if_true]
+        have hset : (kept ++ y :: js ++ x :: r).set kept.length x = (kept ++ [x]) ++ (js ++ [x]) ++ r := by
+          simp [List.set_append_right, List.set_append_left]
+        rw [hset]
+        have := ih (kept ++ [x]) (js ++ [x]) s'
+        simp only [List.length_append, List.length_cons, List.length_nil] at this
+        have hidx : kept.length + (y :: js).length + 1 = kept.length + (0 + 1) + (js.length + (0 + 1)) := by
+          simp; omega
+        rw [hidx, show kept.length + 1 = kept.length + (0 + 1) by omega, this]
+        simp [Nat.add_assoc]
+        omega
+/-! ### fmap -/
+
+theorem fmapLoop_spec {σ : Type} (f : Fn σ Val) (xs : List Val) :
+    ∀ (done pending : List Val) (s : σ), pending.length = xs.length →
+    fmapLoop f (done ++ pending) done.length xs s =
+      .ok (done ++ (Spec.mapM f xs s).1, (Spec.mapM f xs s).2) := by
+  induction xs with
+  | nil =>
+    intro done pending s h
+    have : pending = [] := List.eq_nil_of_length_eq_zero (by simpa using h)
+    simp [fmapLoop, Spec.mapM, this]
+  | cons x r ih =>
+    intro done pending s h
+    cases pending with
+    | nil => simp at h
+    | cons z ps =>
+      simp only [fmapLoop, Spec.mapM]
+      rcases hf : f x s with ⟨y, s'⟩
+      have hlt : done.length < (done ++ z :: ps).length := by simp
+      simp only [if_pos hlt]
+      rw [set_pre done z y ps _ rfl]
+      have := ih (done ++ [y]) ps s' (by simpa using h)
+      simp only [List.append_assoc, List.length_append, List.length_cons, List.length_nil,
+        List.cons_append, List.nil_append] at this
+      simp [this]
+
+theorem fmap_spec {σ : Type} (f : Fn σ Val) (list : Sl) (s : σ) :
+    fmap f list s = .ok (some (Spec.mapM f list.elems s).1, (Spec.mapM f list.elems s).2) := by
+  unfold fmap
+  have := fmapLoop_spec f list.elems [] (List.replicate list.elems.length zeroCell) s (by simp)
+  simp only [List.nil_append, List.length_nil] at this
+  rw [this]
+
+/-! ### join -/
+
+theorem joinLoop_spec (ls : List Sl) (res : List Val) :
+    joinLoop res ls = res ++ (ls.map Sl.elems).flatten := by
+  induction ls generalizing res with
+  | nil => simp [joinLoop]
+  | cons e r ih => simp [joinLoop, ih]
+
+theorem joinLen_spec (ls : List Sl) : joinLen ls = ((ls.map Sl.elems).flatten).length := by
+  induction ls with
+  | nil => rfl
+  | cons e r ih => simp [joinLen, ih]
+
+theorem joinStrings_spec (ss : List (List Nat)) : joinStrings ss = ss.flatten := by
+  induction ss with
+  | nil => rfl
+  | cons e r ih => simp [joinStrings, ih]
+
+/-! ### min / max -/
+
+theorem minLoop_spec (lt : Val → Val → Res Bool) (l : Val → Val → Bool) (S : List Val)
+    (hlt : ∀ a ∈ S, ∀ b ∈ S, lt a b = .ok (l a b))
+    (hirr : ∀ a ∈ S, l a a = false)
+    (htr : ∀ a ∈ S, ∀ b ∈ S, ∀ c ∈ S, l a b = true → l b c = true → l a c = true)
+    (rest : List Val) :
+    ∀ (m : Val) (seen : List Val), m ∈ seen → (∀ y ∈ seen, l y m = false) →
+      (∀ y ∈ seen, y ∈ S) → (∀ y ∈ rest, y ∈ S) →
+      ∃ m', minLoop lt m rest = .ok m' ∧ m' ∈ seen ++ rest ∧ ∀ y ∈ seen ++ rest, l y m' = false := by
+  induction rest with
+  | nil =>
+    intro m seen hm hmin _ _
+    exact ⟨m, rfl, by simpa using hm, by simpa using hmin⟩
+  | cons v r ih =>
+    intro m seen hm hmin hseen hrest
+    have hvS : v ∈ S := hrest v (by simp)
+    have hmS : m ∈ S := hseen m hm
+    simp only [minLoop, hlt v hvS m hmS]
+    cases hvm : l v m with
+    | true =>
+      have := ih v (seen ++ [v]) (by simp) (by
+          intro y hy
+          rcases List.mem_append.mp hy with hy | hy
+          · -- y < v and v < m would give y < m
+            cases hyv : l y v with
+            | false => rfl
+            | true =>
+              have := htr y (hseen y hy) v hvS m hmS hyv hvm
+              rw [hmin y hy] at this; cases this
+          · have : y = v := by simpa using hy
+            subst this; exact hirr y hvS)
+        (by intro y hy; rcases List.mem_append.mp hy with hy | hy
+            · exact hseen y hy
+            · have : y = v := by simpa using hy
+              subst this; exact hvS)
+        (fun y hy => hrest y (by simp [hy]))
+      simpa [List.append_assoc] using this
+    | false =>
+      have := ih m (seen ++ [v]) (by simp [hm]) (by
+          intro y hy
+          rcases List.mem_append.mp hy with hy | hy
+          · exact hmin y hy
+          · have : y = v := by simpa using hy
+            subst this; exact hvm)
+        (by intro y hy; rcases List.mem_append.mp hy with hy | hy
+            · exact hseen y hy
+            · have : y = v := by simpa using hy
+              subst this; exact hvS)
+        (fun y hy => hrest y (by simp [hy]))
+      simpa [List.append_assoc] using this
+
+/-! ### sort: the two sorter instances satisfy the contract -/
+
+theorem insertSorted_perm (lt : Val → Val → Bool) (x : Val) (ys : List Val) :
+    (insertSorted lt x ys).Perm (x :: ys) := by
+  induction ys with
+  | nil => simp [insertSorted]
+  | cons y r ih =>
+    simp only [insertSorted]
+    split
+    · exact List.Perm.refl _
+    · exact (List.Perm.cons y ih).trans (List.Perm.swap x y r)
+
+theorem insertionSort_perm (lt : Val → Val → Bool) (xs : List Val) :
+    (insertionSort lt xs).Perm xs := by
+  induction xs with
+  | nil => simp [insertionSort]
+  | cons x r ih =>
+    simp only [insertionSort]
+    exact (insertSorted_perm lt x _).trans (List.Perm.cons x ih)
+
+theorem insertSorted_sorted (lt : Val → Val → Bool) (S : List Val)
+    (hasym : ∀ a ∈ S, ∀ b ∈ S, lt a b = true → lt b a = false)
+    (htr : ∀ a ∈ S, ∀ b ∈ S, ∀ c ∈ S, lt a b = true → lt b c = true → lt a c = true)
+    (x : Val) (hx : x ∈ S) (ys : List Val) (hys : ∀ y ∈ ys, y ∈ S)
+    (hs : Spec.SortedLt lt ys) : Spec.SortedLt lt (insertSorted lt x ys) := by
+  induction ys with
+  | nil => simp [insertSorted, Spec.SortedLt]
+  | cons y r ih =>
+    unfold Spec.SortedLt at hs ih ⊢
+    rw [List.pairwise_cons] at hs
+    have hyS : y ∈ S := hys y (by simp)
+    have hrS : ∀ z ∈ r, z ∈ S := fun z hz => hys z (by simp [hz])
+    simp only [insertSorted]
+    cases hxy : lt x y with
+    | true =>
+      simp only [if_true]
+      rw [List.pairwise_cons]
+      refine ⟨?_, List.pairwise_cons.mpr hs⟩
+      intro z hz
+      rcases List.mem_cons.mp hz with rfl | hz
+      · exact hasym x hx z hyS hxy
+      · -- z < x and x < y would give z < y
+        cases hzx : lt z x with
+        | false => rfl
+        | true =>
+          have := htr z (hrS z hz) x hx y hyS hzx hxy
+          rw [hs.1 z hz] at this; cases this
+    | false =>
+      simp only [Bool.false_eq_true, if_false]
+      rw [List.pairwise_cons]
+      refine ⟨?_, ih hrS hs.2⟩
+      intro z hz
+      have hz' := (insertSorted_perm lt x r).subset hz
+      rcases List.mem_cons.mp hz' with rfl | hz'
+      · exact hxy
+      · exact hs.1 z hz'
+
+theorem insertionSort_sorted (lt : Val → Val → Bool) (xs : List Val) (h : Spec.StrictOrderOn lt xs) :
+    Spec.SortedLt lt (insertionSort lt xs) := by
+  suffices ∀ ys, (∀ y ∈ ys, y ∈ xs) → Spec.SortedLt lt (insertionSort lt ys) from this xs (fun _ h => h)
+  intro ys
+  induction ys with
+  | nil => intro _; simp [insertionSort, Spec.SortedLt]
+  | cons y r ih =>
+    intro hsub
+    simp only [insertionSort]
+    apply insertSorted_sorted lt xs h.asymm h.trans y (hsub y (by simp))
+    · intro z hz
+      exact hsub z (by simp [(insertionSort_perm lt r).subset hz])
+    · exact ih (fun z hz => hsub z (by simp [hz]))
+
+theorem insertionSort_ok : Spec.SorterOK insertionSort :=
+  ⟨insertionSort_perm, insertionSort_sorted⟩
+
+theorem mergeSorter_perm (lt : Val → Val → Bool) (xs : List Val) : (mergeSorter lt xs).Perm xs :=
+  List.mergeSort_perm xs _
+
+theorem mergeSorter_sorted (lt : Val → Val → Bool) (xs : List Val) (h : Spec.StrictOrderOn lt xs) :
+    Spec.SortedLt lt (mergeSorter lt xs) := by
+  -- run merge sort on the subtype of members of `xs`, where the order laws hold globally
+  let r : {x // x ∈ xs} → {x // x ∈ xs} → Bool := fun a b => !lt b.1 a.1
+  have htrans : ∀ a b c : {x // x ∈ xs}, r a b = true → r b c = true → r a c = true := by
+    intro a b c hab hbc
+    simp only [r, Bool.not_eq_true'] at *
+    exact h.negTrans c.1 c.2 b.1 b.2 a.1 a.2 hbc hab
+  have htotal : ∀ a b : {x // x ∈ xs}, (r a b || r b a) = true := by
+    intro a b
+    simp only [r]
+    cases hba : lt b.1 a.1 with
+    | false => simp
+    | true => simp [h.asymm b.1 b.2 a.1 a.2 hba]
+  have hp := List.pairwise_mergeSort htrans htotal xs.attach
+  have hmap : (xs.attach.mergeSort r).map Subtype.val = mergeSorter lt xs := by
+    unfold mergeSorter
+    rw [List.map_mergeSort (s := fun a b => !lt b a) (f := Subtype.val)]
+    · simp
+    · intros; rfl
+  unfold Spec.SortedLt
+  rw [← hmap, List.pairwise_map]
+  refine hp.imp ?_
+  intro a b hab
+  simpa [r] using hab
+
+theorem mergeSorter_ok : Spec.SorterOK mergeSorter :=
+  ⟨mergeSorter_perm, mergeSorter_sorted⟩
+
+/-- deriveSort through any sorter that satisfies the contract -/
+theorem sort_spec (sorter : (Val → Val → Bool) → List Val → List Val) (hs : Spec.SorterOK sorter)
+    (less : Val → Val → Res Bool) (l : Val → Val → Bool) (xs : List Val)
+    (hless : ∀ a ∈ xs, ∀ b ∈ xs, less a b = .ok (l a b))
+    (hord : Spec.StrictOrderOn l xs) :
+    ∃ out, sort sorter less (some xs) = .ok (some out) ∧ out.Perm xs ∧ Spec.SortedLt l out := by
+  have hall : xs.all (fun a => xs.all (fun b => resIsOk (less a b))) = true := by
+    simp only [List.all_eq_true]
+    intro a ha b hb
+    simp [hless a ha b hb, resIsOk]
+  refine ⟨sorter (fun a b => resTrue (less a b)) xs, by simp [sort, hall], hs.perm _ _, ?_⟩
+  -- on the elements of xs the Bool view of `less` is `l`
+  have hagree : ∀ a ∈ xs, ∀ b ∈ xs, resTrue (less a b) = l a b := by
+    intro a ha b hb; simp [hless a ha b hb, resTrue]
+  have hord' : Spec.StrictOrderOn (fun a b => resTrue (less a b)) xs := by
+    refine ⟨?_, ?_, ?_⟩
+    · intro a ha b hb; simp only [hagree a ha b hb, hagree b hb a ha]; exact hord.asymm a ha b hb
+    · intro a ha b hb c hc
+      simp only [hagree a ha b hb, hagree b hb c hc, hagree a ha c hc]; exact hord.trans a ha b hb c hc
+    · intro a ha b hb c hc
+      simp only [hagree a ha b hb, hagree b hb c hc, hagree a ha c hc]; exact hord.negTrans a ha b hb c hc
+  have hsorted := hs.sorted _ xs hord'
+  have hperm := hs.perm (fun a b => resTrue (less a b)) xs
+  unfold Spec.SortedLt at hsorted ⊢
+  have hmem : ∀ a ∈ sorter (fun a b => resTrue (less a b)) xs, a ∈ xs := fun a ha => hperm.subset ha
+  -- transfer along membership
+  refine List.Pairwise.imp_of_mem ?_ hsorted
+  intro a b ha hb hab
+  rw [← hagree b (hmem b hb) a (hmem a ha)]; exact hab
+
+/-! ### first-occurrence dedup -/
+
+/-- one step of the dedup fold -/
+def dedupStep (e : Val → Val → Bool) (kept : List Val) (x : Val) : List Val :=
+  if kept.any (fun y => e y x) then kept else kept ++ [x]
+
+theorem dedupFirst_eq_foldl (e : Val → Val → Bool) (xs : List Val) :
+    Spec.dedupFirst e xs = xs.foldl (dedupStep e) [] := rfl
+
+/-- invariant of the dedup fold started from `kept` -/
+theorem dedupFold_props (e : Val → Val → Bool) (xs : List Val) :
+    ∀ kept : List Val,
+      (∃ added, xs.foldl (dedupStep e) kept = kept ++ added ∧ (∀ y ∈ added, y ∈ xs)) ∧
+      (kept.Pairwise (fun a b => e a b = false) →
+        (xs.foldl (dedupStep e) kept).Pairwise (fun a b => e a b = false)) ∧
+      ((∀ x ∈ xs, e x x = true) → ∀ x ∈ xs, ∃ y ∈ xs.foldl (dedupStep e) kept, e y x = true) := by
+  induction xs with
+  | nil => intro kept; exact ⟨⟨[], by simp, by simp⟩, fun h => h, by simp⟩
+  | cons x r ih =>
+    intro kept
+    simp only [List.foldl_cons]
+    obtain ⟨⟨added, hadd, hsub⟩, hpw, hcov⟩ := ih (dedupStep e kept x)
+    refine ⟨?_, ?_, ?_⟩
+    · unfold dedupStep at hadd ⊢
+      split at hadd
+      · rename_i hany
+        simp only [hany, if_true]
+        exact ⟨added, hadd, fun y hy => by simp [hsub y hy]⟩
+      · rename_i hany
+        simp only [hany, Bool.false_eq_true, if_false]
+        refine ⟨x :: added, by simpa [List.append_assoc] using hadd, ?_⟩
+        intro y hy
+        rcases List.mem_cons.mp hy with rfl | hy
+        · simp
+        · simp [hsub y hy]
+    · intro hk
+      apply hpw
+      unfold dedupStep
+      split
+      · exact hk
+      · rename_i hany
+        rw [List.pairwise_append]
+        refine ⟨hk, by simp, ?_⟩
+        intro a ha b hb
+        have : b = x := by simpa using hb
+        subst this
+        have hnone : ¬ (kept.any (fun y => e y b) = true) := hany
+        simp only [List.any_eq_true, not_exists, not_and] at hnone
+        cases hab : e a b with
+        | false => rfl
+        | true => exact absurd hab (hnone a ha)
+    · intro hrefl y hy
+      rcases List.mem_cons.mp hy with rfl | hy
+      · -- the head: either an earlier kept element is Equal to it, or it was kept itself
+        unfold dedupStep at hadd ⊢
+        split at hadd
+        · rename_i hany
+          simp only [hany, if_true]
+          obtain ⟨z, hz, hzy⟩ := List.any_eq_true.mp hany
+          exact ⟨z, by rw [hadd]; simp [hz], hzy⟩
+        · rename_i hany
+          simp only [hany, Bool.false_eq_true, if_false]
+          exact ⟨y, by rw [hadd]; simp, hrefl y (by simp)⟩
+      · exact hcov (fun x hx => hrefl x (by simp [hx])) y hy
+
+theorem dedupFirst_isSetOf (e : Val → Val → Bool) (xs : List Val) (hrefl : ∀ x ∈ xs, e x x = true) :
+    Spec.IsSetOf e xs (Spec.dedupFirst e xs) := by
+  obtain ⟨⟨added, hadd, hsub⟩, hpw, hcov⟩ := dedupFold_props e xs []
+  refine ⟨hcov hrefl, ?_, hpw (by simp)⟩
+  intro y hy
+  rw [dedupFirst_eq_foldl, hadd] at hy
+  exact hsub y (by simpa using hy)
+
+/-! ### unique: the hash-bucket loop -/
+
+/-- the table maps every hash to exactly the positions of the kept elements with that hash -/
+def TableInv (hf : Val → UInt64) (table : UInt64 → List Nat) (kept : List Val) : Prop :=
+  ∀ h k, k ∈ table h ↔ ∃ y, kept[k]? = some y ∧ hf y = h
+
+theorem bucketContains_spec (eq : Val → Val → Res Bool) (e : Val → Val → Bool)
+    (kept tail : List Val) (x : Val) (heq : ∀ y ∈ kept, eq y x = .ok (e y x)) (idxs : List Nat)
+    (hidx : ∀ k ∈ idxs, k < kept.length) :
+    bucketContains eq (kept ++ tail) x idxs =
+      .ok (idxs.any (fun k => match kept[k]? with | some y => e y x | none => false)) := by
+  induction idxs with
+  | nil => rfl
+  | cons k r ih =>
+    have hk : k < kept.length := hidx k (by simp)
+    have ih' := ih (fun j hj => hidx j (by simp [hj]))
+    have hget : (kept ++ tail)[k]? = some kept[k] := by
+      rw [List.getElem?_append_left hk]; simp [hk]
+    have hget' : kept[k]? = some kept[k] := by simp [hk]
+    simp only [bucketContains, hget, heq kept[k] (List.getElem_mem hk), List.any_cons, hget']
+    cases e kept[k] x <;> simp [ih']
+
+theorem bucket_eq_any (hf : Val → UInt64) (e : Val → Val → Bool) (table : UInt64 → List Nat)
+    (kept : List Val) (x : Val) (hinv : TableInv hf table kept)
+    (hresp : ∀ y ∈ kept, e y x = true → hf y = hf x) :
+    (table (hf x)).any (fun k => match kept[k]? with | some y => e y x | none => false) =
+      kept.any (fun y => e y x) := by
+  rw [Bool.eq_iff_iff]
+  simp only [List.any_eq_true]
+  constructor
+  · rintro ⟨k, _, hk⟩
+    cases hg : kept[k]? with
+    | none => simp [hg] at hk
+    | some y =>
+      simp only [hg] at hk
+      exact ⟨y, List.mem_of_getElem? hg, hk⟩
+  · rintro ⟨y, hy, hyx⟩
+    obtain ⟨k, hk⟩ := List.getElem?_of_mem hy
+    exact ⟨k, (hinv (hf x) k).mpr ⟨y, hk, hresp y hy hyx⟩, by simp [hk, hyx]⟩
+
+theorem tableInv_push (hf : Val → UInt64) (table : UInt64 → List Nat) (kept : List Val) (x : Val)
+    (hinv : TableInv hf table kept) :
+    TableInv hf (fun k => if k == hf x then table k ++ [kept.length] else table k) (kept ++ [x]) := by
+  intro h k
+  have hlt_of_mem : ∀ h', k ∈ table h' → k < kept.length := by
+    intro h' hk
+    obtain ⟨y, hy, _⟩ := (hinv h' k).mp hk
+    exact (List.getElem?_eq_some_iff.mp hy).1
+  by_cases hk : k < kept.length
+  · have hg : (kept ++ [x])[k]? = kept[k]? := List.getElem?_append_left hk
+    rw [hg]
+    by_cases hh : h = hf x
+    · subst hh
+      simp only [beq_self_eq_true, if_true, List.mem_append, List.mem_singleton]
+      rw [hinv]
+      constructor
+      · rintro (h1 | h1)
+        · exact h1
+        · omega
+      · exact fun h1 => Or.inl h1
+    · have : (h == hf x) = false := by simp [hh]
+      simp only [this, Bool.false_eq_true, if_false]
+      exact hinv h k
+  · have hnot : ∀ h', k ∉ table h' := fun h' hm => hk (hlt_of_mem h' hm)
+    by_cases hke : k = kept.length
+    · subst hke
+      have hg : (kept ++ [x])[kept.length]? = some x := by simp
+      rw [hg]
+      by_cases hh : h = hf x
+      · subst hh; simp
+      · have : (h == hf x) = false := by simp [hh]
+        simp only [this, Bool.false_eq_true, if_false]
+        constructor
+        · intro hm; exact absurd hm (hnot h)
+        · rintro ⟨y, hy, hyh⟩
+          have : y = x := by simpa using hy.symm
+          subst this; exact absurd hyh.symm hh
+    · have hg : (kept ++ [x])[k]? = none := by
+        apply List.getElem?_eq_none; simp; omega
+      rw [hg]
+      by_cases hh : h = hf x
+      · subst hh
+        simp only [beq_self_eq_true, if_true, List.mem_append, List.mem_singleton]
+        constructor
+        · rintro (h1 | h1)
+          · exact absurd h1 (hnot _)
+          · exact absurd h1 hke
+        · rintro ⟨y, hy, _⟩; cases hy
+      · have : (h == hf x) = false := by simp [hh]
+        simp only [this, Bool.false_eq_true, if_false]
+        constructor
+        · intro hm; exact absurd hm (hnot h)
+        · rintro ⟨y, hy, _⟩; cases hy
+
+theorem dedupFold_prefix (e : Val → Val → Bool) (xs kept : List Val) :
+    ∃ added, xs.foldl (dedupStep e) kept = kept ++ added := by
+  obtain ⟨⟨added, h, _⟩, _⟩ := dedupFold_props e xs kept
+  exact ⟨added, h⟩
+
+/-- dropping past a one-element difference -/
+theorem drop_past_mid (p t : List Val) (a b : Val) (m : Nat) :
+    (p ++ a :: t).drop (p.length + 1 + m) = (p ++ b :: t).drop (p.length + 1 + m) := by
+  induction p with
+  | nil =>
+    have h : ([] : List Val).length + 1 + m = m + 1 := by simp; omega
+    rw [h]; rfl
+  | cons c p ih =>
+    have h : (c :: p).length + 1 + m = (p.length + 1 + m) + 1 := by simp; omega
+    rw [h]
+    exact ih
+
+theorem uniqueLoop_spec (hash : Val → Res UInt64) (eq : Val → Val → Res Bool)
+    (hf : Val → UInt64) (e : Val → Val → Bool) (U : List Val)
+    (hhash : ∀ v ∈ U, hash v = .ok (hf v))
+    (heq : ∀ a ∈ U, ∀ b ∈ U, eq a b = .ok (e a b))
+    (hresp : ∀ a ∈ U, ∀ b ∈ U, e a b = true → hf a = hf b)
+    (rest : List Val) :
+    ∀ (kept junk : List Val) (table : UInt64 → List Nat),
+      (∀ y ∈ kept, y ∈ U) → (∀ y ∈ rest, y ∈ U) → TableInv hf table kept →
+      uniqueLoop hash eq (kept ++ junk ++ rest) table (kept.length + junk.length) kept.length =
+        .ok (rest.foldl (dedupStep e) kept ++
+               (kept ++ junk ++ rest).drop (rest.foldl (dedupStep e) kept).length,
+             (rest.foldl (dedupStep e) kept).length) := by
+  induction rest with
+  | nil =>
+    intro kept junk table _ _ _
+    rw [uniqueLoop]
+    simp
+  | cons x r ih =>
+    intro kept junk table hkU hrU hinv
+    have hxU : x ∈ U := hrU x (by simp)
+    have hrU' : ∀ y ∈ r, y ∈ U := fun y hy => hrU y (by simp [hy])
+    rw [uniqueLoop]
+    have hlt : kept.length + junk.length < (kept ++ junk ++ x :: r).length := by simp
+    rw [dif_pos hlt, getElem_pre (kept ++ junk) x r _ (by simp)]
+    simp only [hhash x hxU]
+    have hb := bucketContains_spec eq e kept (junk ++ x :: r) x (fun y hy => heq y (hkU y hy) x hxU)
+      (table (hf x)) (fun k hk => by
+        obtain ⟨y, hy, _⟩ := (hinv (hf x) k).mp hk
+        exact (List.getElem?_eq_some_iff.mp hy).1)
+    rw [List.append_assoc kept junk, hb,
+      bucket_eq_any hf e table kept x hinv (fun y hy => hresp y (hkU y hy) x hxU)]
+    simp only [List.foldl_cons, dedupStep]
+    cases hany : kept.any (fun y => e y x) with
+    | true =>
+      -- a kept element is Equal to x: x is skipped
+      simp only [if_true]
+      have := ih kept (junk ++ [x]) table hkU hrU' hinv
+      simp only [List.append_assoc, List.length_append, List.length_cons, List.length_nil,
+        List.cons_append, List.nil_append, ← Nat.add_assoc] at this
+      simpa [List.append_assoc] using this
+    | false =>
+      simp only [Bool.false_eq_true, if_false]
+      have hu : kept.length < (kept ++ (junk ++ x :: r)).length := by simp; omega
+      simp only [if_pos hu]
+      have hkU' : ∀ y ∈ kept ++ [x], y ∈ U := by
+        intro y hy
+        rcases List.mem_append.mp hy with hy | hy
+        · exact hkU y hy
+        · have : y = x := by simpa using hy
+          subst this; exact hxU
+      have hinv' := tableInv_push hf table kept x hinv
+      obtain ⟨added, hadd⟩ := dedupFold_prefix e r (kept ++ [x])
+      cases junk with
+      | nil =>
+        have hne : (kept.length + ([] : List Val).length != kept.length) = false := by simp
+        simp only [hne, Bool.false_eq_true, if_false]
+        have := ih (kept ++ [x]) [] _ hkU' hrU' hinv'
+        simp only [List.append_assoc, List.length_append, List.length_cons, List.length_nil,
+          List.cons_append, List.nil_append, List.append_nil, ← Nat.add_assoc] at this
+        simpa [List.append_assoc] using this
+      | cons y js =>
+        have hne : (kept.length + (y :: js).length != kept.length) = true := by simp
+        simp only [hne, if_true]
+        have hset : (kept ++ (y :: js ++ x :: r)).set kept.length x = (kept ++ [x]) ++ (js ++ [x]) ++ r := by
+          simp [List.set_append_right]
+        rw [hset]
+        have := ih (kept ++ [x]) (js ++ [x]) _ hkU' hrU' hinv'
+        simp only [List.length_append, List.length_cons, List.length_nil] at this
+        have hidx : kept.length + (y :: js).length + 1 = kept.length + (0 + 1) + (js.length + (0 + 1)) := by
+          simp; omega
+        rw [hidx, show kept.length + 1 = kept.length + (0 + 1) by omega, this]
+        -- the two arrays differ only at position `kept.length`, which lies before the drop point
+        have hlen : (List.foldl (dedupStep e) (kept ++ [x]) r).length = kept.length + 1 + added.length := by
+          rw [hadd]; simp; omega
+        rw [hlen]
+        have h1 : kept ++ [x] ++ (js ++ [x]) ++ r = kept ++ x :: (js ++ x :: r) := by simp
+        have h2 : kept ++ (y :: js ++ x :: r) = kept ++ y :: (js ++ x :: r) := by simp
+        rw [h1, h2, drop_past_mid kept (js ++ x :: r) x y added.length]
+
+/-! ### union / intersect over lists -/
+
+theorem unionLoop_spec (eq : Val → Val → Res Bool) (e : Val → Val → Bool) (U : List Val)
+    (heq : ∀ a ∈ U, ∀ b ∈ U, eq a b = .ok (e a b)) (that : List Val) :
+    ∀ this : Sl, (∀ y ∈ this.elems, y ∈ U) → (∀ y ∈ that, y ∈ U) →
+      ∃ out, unionLoop eq this that = .ok out ∧ out.elems = that.foldl (dedupStep e) this.elems ∧
+        (out = none ↔ this = none ∧ that.foldl (dedupStep e) this.elems = this.elems) := by
+  induction that with
+  | nil =>
+    intro this _ _
+    exact ⟨this, rfl, rfl, by simp⟩
+  | cons v r ih =>
+    intro this hthis hthat
+    have hv : v ∈ U := hthat v (by simp)
+    have hr : ∀ y ∈ r, y ∈ U := fun y hy => hthat y (by simp [hy])
+    have hc := contains_eq eq e v this.elems (fun w hw => heq w (hthis w hw) v hv)
+    simp only [unionLoop, hc, List.foldl_cons, dedupStep, Spec.containsBy]
+    cases hany : this.elems.any (fun w => e w v) with
+    | true =>
+      simp only [if_true]
+      exact ih this hthis hr
+    | false =>
+      simp only [Bool.false_eq_true, if_false]
+      obtain ⟨out, h1, h2, h3⟩ := ih (some (this.elems ++ [v])) (by
+        intro y hy
+        rcases List.mem_append.mp hy with hy | hy
+        · exact hthis y hy
+        · have : y = v := by simpa using hy
+          subst this; exact hv) hr
+      refine ⟨out, h1, h2, ?_⟩
+      constructor
+      · intro ho; have := h3.mp ho; simp at this
+      · rintro ⟨_, hfix⟩
+        -- the fold only ever extends its accumulator, so it cannot return to `this`
+        obtain ⟨added, hadd⟩ := dedupFold_prefix e r (this.elems ++ [v])
+        have hlen := congrArg List.length hfix
+        rw [hadd] at hlen
+        simp at hlen
+
+/-- the union fold against the independent specification -/
+theorem unionFold_eq_unionBy (e : Val → Val → Bool) (this that : List Val) :
+    ∀ acc : List Val,
+      that.foldl (dedupStep e) (this ++ acc) =
+        this ++ (that.filter (fun v => !Spec.containsBy e this v)).foldl (dedupStep e) acc := by
+  induction that with
+  | nil => intro acc; simp
+  | cons v r ih =>
+    intro acc
+    simp only [List.foldl_cons, List.filter_cons]
+    cases hin' : Spec.containsBy e this v with
+    | true =>
+      have hin : this.any (fun w => e w v) = true := hin'
+      have : dedupStep e (this ++ acc) v = this ++ acc := by
+        simp [dedupStep, List.any_append, hin]
+      simp [this, ih acc]
+    | false =>
+      have hin : this.any (fun w => e w v) = false := hin'
+      have : dedupStep e (this ++ acc) v = this ++ dedupStep e acc v := by
+        simp only [dedupStep, List.any_append, hin, Bool.false_or]
+        split <;> simp
+      simp [this, ih (dedupStep e acc v)]
+
+theorem unionList_spec (eq : Val → Val → Res Bool) (e : Val → Val → Bool) (this that : Sl)
+    (heq : ∀ a ∈ this.elems ++ that.elems, ∀ b ∈ this.elems ++ that.elems, eq a b = .ok (e a b)) :
+    ∃ out, unionList eq this that = .ok out ∧ out.elems = Spec.unionBy e this.elems that.elems := by
+  obtain ⟨out, h1, h2, _⟩ := unionLoop_spec eq e (this.elems ++ that.elems) heq that.elems this
+    (fun y hy => by simp [hy]) (fun y hy => by simp [hy])
+  refine ⟨out, h1, ?_⟩
+  rw [h2]
+  have := unionFold_eq_unionBy e this.elems that.elems []
+  simpa [Spec.unionBy, dedupFirst_eq_foldl] using this
+
+theorem intersectLoop_spec (eq : Val → Val → Res Bool) (e : Val → Val → Bool) (that : List Val)
+    (this : List Val) (heq : ∀ a ∈ that, ∀ b ∈ this, eq a b = .ok (e a b)) :
+    ∀ acc, intersectLoop eq that acc this = .ok (acc ++ this.filter (fun v => Spec.containsBy e that v)) := by
+  induction this with
+  | nil => intro acc; simp [intersectLoop]
+  | cons v r ih =>
+    intro acc
+    have hc := contains_eq eq e v that (fun w hw => heq w hw v (by simp))
+    have ih' := ih (fun a ha b hb => heq a ha b (by simp [hb]))
+    simp only [intersectLoop, hc, List.filter_cons]
+    cases hin : Spec.containsBy e that v <;> simp [ih']
+
+theorem intersectList_spec (eq : Val → Val → Res Bool) (e : Val → Val → Bool) (this that : Sl)
+    (heq : ∀ a ∈ that.elems, ∀ b ∈ this.elems, eq a b = .ok (e a b)) :
+    intersectList eq this that = .ok (some (Spec.intersectBy e this.elems that.elems)) := by
+  simp [intersectList, intersectLoop_spec eq e that.elems this.elems heq, Spec.intersectBy]
+
+/-! ### sets as Go maps: `set[v] = struct{}{}` -/
+
+theorem eq_false_of_symm {e : Val → Val → Bool} {U : List Val} (h : Spec.EquivOn e U)
+    {a b : Val} (ha : a ∈ U) (hb : b ∈ U) (hab : e a b = false) : e b a = false := by
+  cases hba : e b a with
+  | false => rfl
+  | true => rw [h.symm b hb a ha hba] at hab; cases hab
+
+theorem setInsert_props (U : List Val) (h : Spec.EquivOn goEq U) (k : Val) (hk : k ∈ U) (m : List Val) :
+    (∀ y ∈ m, y ∈ U) → m.Pairwise (fun a b => goEq a b = false) →
+      (∀ y ∈ setInsert k m, y = k ∨ y ∈ m) ∧ k ∈ setInsert k m ∧
+      (∀ y ∈ m, ∃ z ∈ setInsert k m, goEq z y = true) ∧
+      (setInsert k m).Pairwise (fun a b => goEq a b = false) := by
+  induction m with
+  | nil => intro _ _; simp [setInsert]
+  | cons k' rest ih =>
+    intro hm hd
+    rw [List.pairwise_cons] at hd
+    have hk' : k' ∈ U := hm k' (by simp)
+    have hrest : ∀ y ∈ rest, y ∈ U := fun y hy => hm y (by simp [hy])
+    simp only [setInsert]
+    cases hkk : goEq k k' with
+    | true =>
+      simp only [if_true]
+      refine ⟨?_, by simp, ?_, ?_⟩
+      · intro y hy
+        rcases List.mem_cons.mp hy with rfl | hy
+        · exact Or.inl rfl
+        · exact Or.inr (by simp [hy])
+      · intro y hy
+        rcases List.mem_cons.mp hy with rfl | hy
+        · exact ⟨k, by simp, hkk⟩
+        · exact ⟨y, by simp [hy], h.refl y (hrest y hy)⟩
+      · rw [List.pairwise_cons]
+        refine ⟨?_, hd.2⟩
+        intro b hb
+        cases hkb : goEq k b with
+        | false => rfl
+        | true =>
+          have h1 := h.symm k hk k' hk' hkk
+          have h2 := h.trans k' hk' k hk b (hrest b hb) h1 hkb
+          rw [hd.1 b hb] at h2; cases h2
+    | false =>
+      simp only [Bool.false_eq_true, if_false]
+      obtain ⟨i1, i2, i3, i4⟩ := ih hrest hd.2
+      refine ⟨?_, by simp [i2], ?_, ?_⟩
+      · intro y hy
+        rcases List.mem_cons.mp hy with rfl | hy
+        · exact Or.inr (by simp)
+        · rcases i1 y hy with rfl | hy
+          · exact Or.inl rfl
+          · exact Or.inr (by simp [hy])
+      · intro y hy
+        rcases List.mem_cons.mp hy with rfl | hy
+        · exact ⟨y, by simp, h.refl y hk'⟩
+        · obtain ⟨z, hz, hzy⟩ := i3 y hy
+          exact ⟨z, by simp [hz], hzy⟩
+      · rw [List.pairwise_cons]
+        refine ⟨?_, i4⟩
+        intro z hz
+        rcases i1 z hz with rfl | hz
+        · exact eq_false_of_symm h hk hk' hkk
+        · exact hd.1 z hz
+
+theorem setFold_props (U : List Val) (h : Spec.EquivOn goEq U) (xs : List Val) :
+    ∀ m : List Val, (∀ y ∈ m, y ∈ U) → (∀ y ∈ xs, y ∈ U) → m.Pairwise (fun a b => goEq a b = false) →
+      (∀ y ∈ xs.foldl (fun m v => setInsert v m) m, y ∈ m ∨ y ∈ xs) ∧
+      (∀ y ∈ m ++ xs, ∃ z ∈ xs.foldl (fun m v => setInsert v m) m, goEq z y = true) ∧
+      (xs.foldl (fun m v => setInsert v m) m).Pairwise (fun a b => goEq a b = false) := by
+  induction xs with
+  | nil =>
+    intro m hm _ hd
+    exact ⟨fun y hy => Or.inl hy, fun y hy => ⟨y, by simpa using hy, h.refl y (hm y (by simpa using hy))⟩, hd⟩
+  | cons x r ih =>
+    intro m hm hxs hd
+    have hx : x ∈ U := hxs x (by simp)
+    have hr : ∀ y ∈ r, y ∈ U := fun y hy => hxs y (by simp [hy])
+    obtain ⟨s1, s2, s3, s4⟩ := setInsert_props U h x hx m hm hd
+    have hm' : ∀ y ∈ setInsert x m, y ∈ U := by
+      intro y hy
+      rcases s1 y hy with rfl | hy
+      · exact hx
+      · exact hm y hy
+    obtain ⟨f1, f2, f3⟩ := ih (setInsert x m) hm' hr s4
+    simp only [List.foldl_cons]
+    refine ⟨?_, ?_, f3⟩
+    · intro y hy
+      rcases f1 y hy with hy | hy
+      · rcases s1 y hy with rfl | hy
+        · exact Or.inr (by simp)
+        · exact Or.inl hy
+      · exact Or.inr (by simp [hy])
+    · intro y hy
+      rcases List.mem_append.mp hy with hy | hy
+      · -- y was in the map: its representative may have been overwritten by an Equal key
+        obtain ⟨z, hz, hzy⟩ := s3 y hy
+        obtain ⟨w, hw, hwz⟩ := f2 z (by simp [hz])
+        have hwU : w ∈ U := by
+          rcases f1 w hw with hw | hw
+          · exact hm' w hw
+          · exact hr w hw
+        exact ⟨w, hw, h.trans w hwU z (hm' z hz) y (hm y hy) hwz hzy⟩
+      · rcases List.mem_cons.mp hy with rfl | hy
+        · exact f2 y (by simp [s2])
+        · exact f2 y (by simp [hy])
+
+theorem set_spec (xs : List Val) (h : Spec.EquivOn goEq xs) :
+    Spec.IsSetOf goEq xs (set (some xs)) := by
+  obtain ⟨f1, f2, f3⟩ := setFold_props xs h xs [] (by simp) (fun _ hy => hy) (by simp)
+  exact ⟨fun x hx => f2 x (by simpa using hx), fun y hy => by simpa using f1 y hy, f3⟩
+
+theorem unionMapLoop_eq (u ks : List Val) :
+    unionMapLoop (some u) ks = .ok (some (ks.foldl (fun m v => setInsert v m) u)) := by
+  induction ks generalizing u with
+  | nil => rfl
+  | cons k r ih => simp [unionMapLoop, ih]
+
+theorem condFold_eq_filter (c : Val → Bool) (ks : List Val) :
+    ∀ acc, ks.foldl (fun acc k => if c k then setInsert k acc else acc) acc =
+      (ks.filter c).foldl (fun m v => setInsert v m) acc := by
+  induction ks with
+  | nil => intro acc; rfl
+  | cons k r ih =>
+    intro acc
+    simp only [List.foldl_cons, List.filter_cons]
+    cases c k <;> simp [ih]
+
+/-! ### permutations of representative sets -/
+
+theorem pairwise_of_perm_symmOn {R : Val → Val → Prop} {l l' : List Val} (hp : l.Perm l')
+    (hsymm : ∀ a ∈ l, ∀ b ∈ l, R a b → R b a) (h : l.Pairwise R) : l'.Pairwise R := by
+  induction hp with
+  | nil => exact h
+  | cons x _ ih =>
+    rw [List.pairwise_cons] at h ⊢
+    rename_i l₁ l₂ hp'
+    refine ⟨fun b hb => h.1 b (hp'.symm.subset hb), ih (fun a ha b hb => hsymm a (by simp [ha]) b (by simp [hb])) h.2⟩
+  | swap x y l =>
+    simp only [List.pairwise_cons, List.mem_cons] at h ⊢
+    obtain ⟨hy, hx, hl⟩ := h
+    refine ⟨?_, ?_, hl⟩
+    · intro b hb
+      rcases hb with hb | hb
+      · subst hb
+        exact hsymm b (by simp) x (by simp) (hy x (Or.inl rfl))
+      · exact hx b hb
+    · intro b hb
+      exact hy b (Or.inr hb)
+  | trans h₁ _ ih₁ ih₂ =>
+    apply ih₂
+    · intro a ha b hb hab
+      exact hsymm a (h₁.symm.subset ha) b (h₁.symm.subset hb) hab
+    · exact ih₁ hsymm h
+
+theorem isSetOf_perm {e : Val → Val → Bool} {xs ys ys' : List Val} (h : Spec.IsSetOf e xs ys)
+    (hp : ys.Perm ys') (hsymm : ∀ a ∈ xs, ∀ b ∈ xs, e a b = true → e b a = true) :
+    Spec.IsSetOf e xs ys' := by
+  refine ⟨?_, fun y hy => h.sound y (hp.symm.subset hy), ?_⟩
+  · intro x hx
+    obtain ⟨y, hy, hyx⟩ := h.covers x hx
+    exact ⟨y, hp.subset hy, hyx⟩
+  · apply pairwise_of_perm_symmOn hp ?_ h.distinct
+    intro a ha b hb hab
+    cases hba : e b a with
+    | false => rfl
+    | true => rw [hsymm b (h.sound b hb) a (h.sound a ha) hba] at hab; cases hab
+
+theorem isSetOf_congr_mem {e : Val → Val → Bool} {xs xs' ys : List Val} (h : Spec.IsSetOf e xs ys)
+    (hm : ∀ x, x ∈ xs ↔ x ∈ xs') : Spec.IsSetOf e xs' ys :=
+  ⟨fun x hx => h.covers x ((hm x).mpr hx), fun y hy => (hm y).mp (h.sound y hy), h.distinct⟩
 
 end Lists
 end Goderive
